@@ -46,6 +46,7 @@ func (k *KernelSys) Done() {
 		_ = os.RemoveAll(k.dir)
 		return
 	}
+	_ = os.Chdir("/")
 	_ = os.Chmod(k.Root, 0o755)
 	_ = filepathWalkChmod(k.Root)
 	_ = os.RemoveAll(k.Root)
@@ -123,6 +124,9 @@ func (k *KernelSys) Truncate(p string, sz int64) int { return KCode(os.Truncate(
 func (k *KernelSys) Chmod(p string, m uint32) int    { return KCode(os.Chmod(k.m(p), GoMode(m))) }
 func (k *KernelSys) Chown(p string, u, g int) int    { return KCode(os.Chown(k.m(p), u, g)) }
 func (k *KernelSys) Lchown(p string, u, g int) int   { return KCode(os.Lchown(k.m(p), u, g)) }
+// Chdir changes the working directory of the process (native runs are sequential).
+func (k *KernelSys) Chdir(p string) int { return KCode(os.Chdir(k.m(p))) }
+
 func (k *KernelSys) Chtimes(p string) int {
 	return KCode(os.Chtimes(k.m(p), time.Unix(1000, 0), time.Unix(2000, 0)))
 }
